@@ -20,7 +20,7 @@ LEVEL = "exploration"
 BUDGET_S = {"quick": 55, "thorough": 800}
 FLOOR = {"quick": 1500, "thorough": 15000}
 MUST_REACH = ("steps_judged", "fixpoints_judged", "exact_predictions", "path_collisions_checked", "sequences_run")
-RULE = ("6 seed ACLs (flat IOS, IOS grouped by remark prefix, NX-OS, with address-group members, with non-contiguous masks and "
+RULE = ("7 seed ACLs (flat IOS, IOS grouped by remark prefix, grouped with port_nr != protocol_nr, NX-OS, with address-group members, with non-contiguous masks and "
         "version-only names, numbered with duplicates) x operation sequences over an alphabet of 18 public operations "
         "(platform toggle, port_nr / protocol_nr toggles, resequence 10/10, 1/1, 0, group('= '), ungroup, sort, reverse, "
         "insert, append, pop, copy, Acl(**data()), re-parse, delete_shadow, ungroup_ports): quick = all sequences of length "
@@ -44,6 +44,9 @@ SEEDS = [
      "lines": ["remark = WEB, servers", "permit tcp any host 10.1.1.1 eq 80", "permit tcp any host 10.1.1.1 eq 80 8080",
                "remark = DB", "remark plain note", "permit tcp 10.2.0.0 0.0.255.255 host 10.1.1.2 eq 1521",
                "deny tcp any host 10.1.1.2", "remark = LAST", "deny ip any any"]},
+    {"name": "grouped-ios-portnr", "platform": "ios", "kwargs": {"group_by": "= ", "port_nr": True},
+     "lines": ["remark = WEB", "permit tcp any host 10.1.1.1 eq www", "permit udp any host 10.1.1.1 eq domain",
+               "remark = MGMT", "permit tcp 10.2.0.0 0.0.255.255 any eq 22 telnet", "deny ip any any"]},
     {"name": "nxos", "platform": "nxos", "kwargs": {},
      "lines": ["10 remark nx", "20 permit tcp 10.0.0.0/24 any eq 22", "30 permit tcp 10.0.0.0/25 any eq 22",
                "40 permit udp any 10.9.0.0/16 gt 1023", "50 deny ip any any"]},
@@ -354,6 +357,9 @@ def gen_seed(rng) -> dict:
         for side in ("src", "dst"):
             if "/0" in desc[side] and platform == "ios":
                 desc[side] = "any"
+        for side in ("sport", "dport"):  # multi-port neq is owned by C19
+            if desc.get(side) and desc[side].startswith("neq ") and len(desc[side].split()) > 2:
+                desc[side] = " ".join(desc[side].split()[:2])
         descs.append(desc)
         lines.append(sc.compose(desc, platform, seq=seq))
     return {"name": f"gen{rng.randrange(1 << 30)}", "platform": platform, "kwargs": {"group_by": heading} if heading else {},
